@@ -38,6 +38,26 @@ PARSERS = [
 ]
 
 
+# helpers whose panic-freedom is decided by another engine / harness (container models or Kani), not by the plain exploration of the closure
+CLOSURE_ELSEWHERE = {'create_snapshot': 'C20-O1 / C11-O2 (snapshot harness reports panics)', 'ensure_hydrated': 'C20-O1 / C11-O2', 'is_better_candidate': 'C11-O2', 'rollback_to_epoch': 'C20-O1',
+                     'compare_display_keys': 'C18-O1 (Kani: panic checks on the compiled code)', 'compare_processed_at_keys': 'C18-O1', 'update_last_message_if_newer': 'C18-O2 (Kani)'}
+
+
+# input-dependent loops in helpers: the trip count is an argument; bounded by what the (only) caller passes
+CLOSURE_ASSUME = {'try_decrypt_with_past_epochs': (3, 5, 'the only caller passes DEFAULT_EPOCH_LOOKBACK = 5')}
+
+
+def closure_arg(i, t):
+    import re as _re
+    t = t.strip()
+    m = _re.fullmatch(r'(u|i)(8|16|32|64|128|size)', t)
+    if m:
+        return z3.BitVec(f'arg{i}_{t}', 64 if m.group(2) == 'size' else int(m.group(2)))
+    if t == 'bool':
+        return z3.Bool(f'arg{i}_bool')
+    return Opaque(f'arg{i}_' + _re.sub(r'[^A-Za-z]', '', t)[-10:], t)
+
+
 @guard
 def o1(tier):
     """no panic path in the MDK-owned parsers"""
@@ -70,6 +90,47 @@ def o1(tier):
         for p in paths:
             if p.kind == 'panic':
                 ob.require(False, f'O1/{f.short}/panic', f'{f.short} can panic on hostile input: {p.msg}', p)
+    # closure: every repository function (all dumped crates) that the functions above call and the engine summarises as an uninterpreted call is explored on its
+    # own, with arbitrary arguments, and so on to a fixpoint -- so a panic in a helper that only a listed entry point reaches (ContentEncoding::from_tags below
+    # parse_key_package, decrypt_message below process_message, ...) is found without the helper having to be listed
+    import re as _re
+    seen = {ob.fn(CORE, spec).name for spec, _ in PARSERS}
+    work = [v for k, v in sorted(ob.eng.repo_callees.items()) if k not in seen]
+    seen |= {v.name for v in work}
+    closure_done, skipped, inconclusive = [], [], []
+    while work:
+        g = work.pop(0)
+        if any(g.name.endswith('::' + x) or g.short == x for x in CLOSURE_ELSEWHERE):
+            skipped.append(g.short); continue
+        known = dict(ob.eng.repo_callees)
+        ob.new_engine(models=CM.codec_models(), loop_bound=14, pure=C.PURE_MLS)
+        ob.eng.model_maps = False
+        ob.eng.repo_callees.update(known)
+        try:
+            cargs = [closure_arg(i, t) for i, (_, t) in enumerate(g.params)]
+            from mirsym.engine import State
+            st0 = State()
+            for nm, (k, bound, why) in CLOSURE_ASSUME.items():
+                if g.short == nm and k < len(cargs) and z3.is_bv(cargs[k]):
+                    st0.pc.append(z3.ULE(cargs[k], bound))
+                    ob.r.assumptions.append(f'{nm}: argument {k} <= {bound} ({why})')
+            paths = ob.explore(g, cargs, st0)
+        except Exception as e:                        # noqa: a helper the engine cannot execute is inconclusive, never a pass
+            inconclusive.append(f'{g.short}: {type(e).__name__}: {str(e)[:120]}')
+            continue
+        total += len(paths)
+        closure_done.append(f'{g.short}:{len(paths)}')
+        for p in paths:
+            if p.kind == 'panic':
+                ob.require(False, f'O1/{g.short}/panic', f'{g.short} (reached from the parsers / entry points through the call graph) can panic on hostile input: {p.msg}', p)
+        for k, v in sorted(ob.eng.repo_callees.items()):
+            if k not in seen:
+                seen.add(k); work.append(v)
+    done += closure_done
+    if inconclusive:
+        ob.r.broken('call-graph closure: ' + '; '.join(inconclusive[:6]))
+    ob.require(len(closure_done) >= 20, 'O1/vacuity-closure', f'only {len(closure_done)} helper functions reached through the call graph')
+    ob.r.notes.append(f'call-graph closure: {len(closure_done)} helper functions explored on their own; decided elsewhere with their own harness (not explored here): {sorted(set(skipped))}')
     ob.r.bounds = {'functions': done, 'sequence lengths': f'0..{M.SEQ_BOUND[0]}', 'string / byte lengths': 'symbolic u64'}
     ob.r.assumptions += ['callees outside the MDK crates (std, serde_json, tls_codec, hex, OpenMLS, nostr) do not panic except the modelled may-panic std functions',
                          'the uniffi binding layer is not encoded']
@@ -242,6 +303,16 @@ def o11(tier):
     return r
 
 
+def o12(tier):
+    """a late commit of an already decided epoch that is refused must stay without effect after a restart too"""
+    from props import C11
+    r = C11.o1(tier)
+    r.oid = 'O12'
+    r.title = ('parse_snapshot_name (shared with C11-O1): a snapshot re-loaded after a restart carries the timestamp 0 ("unknown"), never a fabricated one, so is_better_candidate answers false for it '
+               'and a late commit that is going to be refused (non-admin, stale) cannot first roll the group back')
+    return r
+
+
 def o10(tier):
     """a failed storage operation must not leave half of its effects visible: the error path of the SQLite rollback rolls its transaction back"""
     from props import C12
@@ -251,7 +322,7 @@ def o10(tier):
     return r
 
 def run(tier, seed, only=None):
-    obs = [('O1', o1), ('O1b', o1b), ('O2', o2), ('O3', o3), ('O4', o4), ('O5', o5), ('O6', o6), ('O7', o7), ('O8', o8), ('O9', o9), ('O10', o10), ('O11', o11)]
+    obs = [('O1', o1), ('O1b', o1b), ('O2', o2), ('O3', o3), ('O4', o4), ('O5', o5), ('O6', o6), ('O7', o7), ('O8', o8), ('O9', o9), ('O10', o10), ('O11', o11), ('O12', o12)]
     out = []
     for k, f in obs:
         if only and k not in only:
